@@ -120,15 +120,15 @@ theorem stderr_taken_all (R : ReaderParams) (hR : R.Good) (sinkFails : Nat → B
 /-- stderr output that precedes the handshake line is consumed while `Start` waits for the line -/
 theorem stderr_taken_before_handshake (R : ReaderParams) (hR : R.Good) (lines : Nat) :
     stderrTakenDuringStart R lines = lines := by
-  simp [stderrTakenDuringStart, hR.2]
+  simp [stderrTakenDuringStart, hR.2.1]
 
 /-! ### The structural facts matter (witnesses) -/
 
 /-- a loop that returns when the sink write fails leaves everything after the first failure unread -/
-theorem sink_error_witness : stderrTaken ⟨false, true⟩ (fun i => i == 2) 1000 0 = 3 := by decide
+theorem sink_error_witness : stderrTaken ⟨false, true, true⟩ (fun i => i == 2) 1000 0 = 3 := by decide
 
 /-- a reader that first asks the client for something guarded by the lock `Start` holds reads nothing until `Start` returns -/
-theorem reader_waits_for_start_witness : stderrTakenDuringStart ⟨true, false⟩ 2048 = 0 := by decide
+theorem reader_waits_for_start_witness : stderrTakenDuringStart ⟨true, false, true⟩ 2048 = 0 := by decide
 
 
 /-- `{"@message": 5}` -/
@@ -187,5 +187,13 @@ example : (stderrLoop good extHclog 64 [123, 125, 10]).recs = [⟨.warn, [104, 1
 example : (stderrLoop good extD6 64 (lineD6 ++ [10])).recs = [rawRec .debug lineD6] := by decide
 
 example : Scanner.consumes ⟨4, true, true⟩ [97, 97, 97, 97, 97, 97, 10, 98] = true := by decide
+
+/-- **The plugin's last words are not lost**: whatever is still unread in the stderr pipe when the process exits is taken
+too (the pipe is closed only after the reader has reached its end). -/
+theorem stderr_taken_after_exit (R : ReaderParams) (hR : R.Good) (unread : Nat) : stderrTakenAfterExit R unread = unread := by
+  simp [stderrTakenAfterExit, hR.2.2]
+
+/-- Witness: a reader that the exit watcher does not wait for loses everything still in the pipe -/
+theorem pipe_closed_early_witness : stderrTakenAfterExit ⟨true, true, false⟩ 700 = 0 := by decide
 
 end GoPlugin.Props.C10
